@@ -151,13 +151,18 @@ def run_instance(cid, inst_index, tier, seed=0, repo_src=None, native_trials=0, 
     nobl = 0
     for pi, ctx in enumerate(ctxs):
         trusted |= ctx.trusted
-        # vacuity guard: hypotheses at the end of the path must not be contradictory
-        # (the arbitrary index tuples of `k.indices` range over possibly empty boxes: excluded)
+        # vacuity guard: the contract's own assumptions (requires, domains, library axioms, lemmas) must
+        # not be contradictory.  Not part of it: arbitrary index tuples of `k.indices` (possibly empty
+        # boxes) and side conditions that are assumed after having been recorded as obligations.
         nh = ctx.memo.get("first_index_hyp", len(ctx.hyps))
-        vac = vc.discharge(ctx.hyps[:nh], z3.BoolVal(False), timeout_ms=3000, portfolio=False)
+        core = [h for h, tg in zip(ctx.hyps[:nh], ctx.hyp_tags[:nh]) if tg != "branch" and not tg.startswith("after:")]
+        vac = vc.discharge(core, z3.BoolVal(False), timeout_ms=3000, portfolio=False, full=True)
         if vac.status == "proved":
-            res["checker_errors"].append({"where": f"{cid}[{label}] path {pi}", "trace": "vacuous: hypotheses of the path are contradictory"})
+            res["checker_errors"].append({"where": f"{cid}[{label}] path {pi}", "trace": "vacuous: the assumptions of the contract are contradictory"})
             continue
+        withbr = [h for h, tg in zip(ctx.hyps[:nh], ctx.hyp_tags[:nh]) if not tg.startswith("after:")]
+        if len(withbr) > len(core) and vc.discharge(withbr, z3.BoolVal(False), timeout_ms=3000, portfolio=False, full=True).status == "proved":
+            continue  # infeasible path (its feasibility query had timed out)
         for ob in ctx.obls:
             nobl += 1
             oid = f"{cid}#{ob.name}[{label}]" + (f"/p{pi}" if len(ctxs) > 1 else "")
